@@ -13,7 +13,13 @@
 //! with operations that create no node, regrowth after removals, and — each in a process of its own, so
 //! that "the k-th thread of the process to create a node" is a deterministic notion — histories that
 //! spread the node creations over several threads (every thread ordinal of a process building a treap;
-//! chunks built on different threads and concatenated; nodes created round-robin by several threads).
+//! chunks built on 2 … 1024 threads — started one after the other was joined, all kept alive, or next to a
+//! few long-lived threads — and concatenated; nodes created round-robin by several threads).
+//!
+//! C03 also has a directed (not exhaustive) part: trees of up to ~1000 nodes written down as struct literals
+//! in systematic shape families (paths, zigzags, caterpillars, combs, balanced trees and mixes) with lazy
+//! modifications pending at chosen nodes; every operation of the property is applied to them once, on
+//! threads with a generous stack, and judged by the invariants of the exploration in linear time.
 
 use rlib_treap::{Treap, TreapItem, TreapItemSized, TreapNode};
 use serde::{Deserialize, Serialize};
@@ -23,9 +29,10 @@ use vcore::*;
 // ---------------------------------------------------------------------------------------------
 // item: value in Z3, subtree size, aggregate = word of the subtree's values, pending affine map
 
+/// `I` = type of the element ids: u8 in the exploration (at most 6 nodes), u32 in the directed shape sweep
 #[derive(Clone, Debug, PartialEq)]
-struct It {
-    id: u8,
+struct It<I = u8> {
+    id: I,
     val: u8,
     size: u32,
     agg: Vec<u8>,
@@ -36,8 +43,8 @@ struct It {
 const IDT: (u8, u8) = (1, 0);
 const MODS: [(u8, u8); 2] = [(1, 1), (0, 0)]; // add 1, assign 0 — they do not commute
 
-impl It {
-    fn new(id: u8, val: u8) -> It {
+impl<I> It<I> {
+    fn new(id: I, val: u8) -> It<I> {
         It { id, val, size: 1, agg: vec![val], tag: IDT }
     }
     fn apply(&mut self, m: (u8, u8)) {
@@ -52,7 +59,7 @@ impl It {
     }
 }
 
-impl TreapItem for It {
+impl<I> TreapItem for It<I> {
     fn update(&mut self, l: Option<&Self>, r: Option<&Self>) {
         self.size = 1 + l.map_or(0, |x| x.size) + r.map_or(0, |x| x.size);
         let mut agg = l.map_or(vec![], |x| x.agg.clone());
@@ -77,7 +84,7 @@ impl TreapItem for It {
     }
 }
 
-impl TreapItemSized for It {
+impl<I> TreapItemSized for It<I> {
     fn size(&self) -> usize {
         self.size as usize
     }
@@ -87,18 +94,18 @@ impl TreapItemSized for It {
 
 type Node = TreapNode<It>;
 
-fn copy_node(n: &Option<Box<Node>>) -> Option<Box<Node>> {
-    n.as_ref().map(|b| Box::new(Node { item: b.item.clone(), priority: b.priority, left: copy_node(&b.left), right: copy_node(&b.right) }))
+fn copy_node<T: Clone>(n: &Option<Box<TreapNode<T>>>) -> Option<Box<TreapNode<T>>> {
+    n.as_ref().map(|b| Box::new(TreapNode { item: b.item.clone(), priority: b.priority, left: copy_node(&b.left), right: copy_node(&b.right) }))
 }
 
-fn copy_treap(t: &Treap<It>) -> Treap<It> {
+fn copy_treap<T: Clone>(t: &Treap<T>) -> Treap<T> {
     Treap { root: copy_node(&t.root) }
 }
 
 /// `val >= 4` encodes "value val-4, carrying a pending modification (add 1)": a consistent one-element
 /// subtree whose tag has nobody to go to.  A correct treap pushes a node before it adopts children, which
 /// discards such a tag; one that does not would apply it to neighbours it was never attached to.
-fn make_item(id: u8, val: u8) -> It {
+fn make_item<I>(id: I, val: u8) -> It<I> {
     if val >= 4 {
         let mut it = It::new(id, val - 4);
         it.tag = MODS[0];
@@ -113,7 +120,7 @@ fn single(id: u8, val: u8, prio: u32) -> Treap<It> {
     Treap { root: Some(Box::new(Node { item: make_item(id, val), priority: prio, left: None, right: None })) }
 }
 
-fn for_each_node(n: &Option<Box<Node>>, f: &mut dyn FnMut(&Node)) {
+fn for_each_node<T>(n: &Option<Box<TreapNode<T>>>, f: &mut dyn FnMut(&TreapNode<T>)) {
     if let Some(b) = n {
         f(b);
         for_each_node(&b.left, f);
@@ -121,7 +128,7 @@ fn for_each_node(n: &Option<Box<Node>>, f: &mut dyn FnMut(&Node)) {
     }
 }
 
-fn for_each_node_mut(n: &mut Option<Box<Node>>, f: &mut dyn FnMut(&mut Node)) {
+fn for_each_node_mut<T>(n: &mut Option<Box<TreapNode<T>>>, f: &mut dyn FnMut(&mut TreapNode<T>)) {
     if let Some(b) = n {
         f(b);
         for_each_node_mut(&mut b.left, f);
@@ -730,6 +737,700 @@ impl System for Sys {
 }
 
 // ---------------------------------------------------------------------------------------------
+// C03 (b): DIRECTED (not exhaustive) sweep over tall and large tree shapes.
+//
+// The exploration above reaches every shape, but only of up to 6 nodes.  Here trees of up to a thousand
+// nodes are written down as struct literals (nothing is drawn) in systematic shape families — paths,
+// zigzags, caterpillars, combs, perfectly balanced trees and mixes of them —, with lazy modifications
+// pending at chosen nodes, and every operation of the property is applied to them once and judged against
+// the vector model by the invariants of the exploration (collect = model, cached sizes, aggregates).
+
+type Big = It<u32>;
+type BNode = TreapNode<Big>;
+type Seq = Vec<(u32, u8)>;
+
+/// x -> outer(inner(x))
+fn compose(outer: (u8, u8), inner: (u8, u8)) -> (u8, u8) {
+    ((outer.0 * inner.0) % 3, (outer.0 * inner.1 + outer.1) % 3)
+}
+
+fn map_val(m: (u8, u8), x: u8) -> u8 {
+    (m.0 * x + m.1) % 3
+}
+
+#[derive(Clone, Copy, Debug, PartialEq)]
+enum Shape {
+    LeftPath,
+    RightPath,
+    /// a path that turns at every node
+    ZigZag,
+    /// a right (left) path every node of which has a leaf as its other child
+    CaterpillarRight,
+    CaterpillarLeft,
+    Balanced,
+    /// a right (left) spine every node of which carries a left (right) path of this many nodes
+    CombRight(usize),
+    CombLeft(usize),
+    /// a right path of this many nodes with a balanced tree at its end
+    PathThenBalanced(usize),
+    /// balanced down to subtrees of at most this many nodes, which are left paths
+    BalancedThenPaths(usize),
+}
+
+impl Shape {
+    /// Which of the positions lo..hi is the root of the subtree holding them (at `depth`), and the shapes
+    /// of its two sides.
+    fn root(self, lo: usize, hi: usize, depth: usize) -> (usize, Shape, Shape) {
+        let len = hi - lo;
+        let mid = lo + (len - 1) / 2;
+        match self {
+            Shape::LeftPath => (hi - 1, self, self),
+            Shape::RightPath => (lo, self, self),
+            Shape::ZigZag => (if depth % 2 == 0 { lo } else { hi - 1 }, self, self),
+            Shape::CaterpillarRight => (if len >= 2 { lo + 1 } else { lo }, self, self),
+            Shape::CaterpillarLeft => (if len >= 2 { hi - 2 } else { lo }, self, self),
+            Shape::Balanced => (mid, self, self),
+            Shape::CombRight(k) => (lo + k.min(len - 1), Shape::LeftPath, self),
+            Shape::CombLeft(k) => (hi - 1 - k.min(len - 1), self, Shape::RightPath),
+            Shape::PathThenBalanced(spine) if depth < spine => (lo, self, self),
+            Shape::PathThenBalanced(_) => (mid, Shape::Balanced, Shape::Balanced),
+            Shape::BalancedThenPaths(k) if len > k => (mid, self, self),
+            Shape::BalancedThenPaths(_) => (hi - 1, Shape::LeftPath, Shape::LeftPath),
+        }
+    }
+
+    fn label(self) -> String {
+        match self {
+            Shape::LeftPath => "left_path".into(),
+            Shape::RightPath => "right_path".into(),
+            Shape::ZigZag => "zigzag".into(),
+            Shape::CaterpillarRight => "caterpillar_right".into(),
+            Shape::CaterpillarLeft => "caterpillar_left".into(),
+            Shape::Balanced => "balanced".into(),
+            Shape::CombRight(k) => format!("comb_right/tooth={k}"),
+            Shape::CombLeft(k) => format!("comb_left/tooth={k}"),
+            Shape::PathThenBalanced(k) => format!("path_then_balanced/spine={k}"),
+            Shape::BalancedThenPaths(k) => format!("balanced_then_paths/below={k}"),
+        }
+    }
+
+    /// pre-order list of the root positions: two shapes with the same list are the same tree
+    fn skeleton(self, n: usize) -> Vec<u32> {
+        fn rec(s: Shape, lo: usize, hi: usize, depth: usize, out: &mut Vec<u32>) {
+            if lo < hi {
+                let (r, ls, rs) = s.root(lo, hi, depth);
+                out.push(r as u32);
+                rec(ls, lo, r, depth + 1, out);
+                rec(rs, r + 1, hi, depth + 1, out);
+            }
+        }
+        let mut out = vec![];
+        rec(self, 0, n, 0, &mut out);
+        out
+    }
+
+    fn height(self, n: usize) -> usize {
+        fn rec(s: Shape, lo: usize, hi: usize, depth: usize) -> usize {
+            if lo == hi {
+                return depth;
+            }
+            let (r, ls, rs) = s.root(lo, hi, depth);
+            rec(ls, lo, r, depth + 1).max(rec(rs, r + 1, hi, depth + 1))
+        }
+        rec(self, 0, n, 0)
+    }
+}
+
+/// The shape families at size n (different trees only), simplest first.
+fn shapes_for(n: usize) -> Vec<Shape> {
+    let r = ((n as f64).sqrt() as usize).max(2);
+    let all = [
+        Shape::LeftPath,
+        Shape::RightPath,
+        Shape::ZigZag,
+        Shape::CaterpillarRight,
+        Shape::CaterpillarLeft,
+        Shape::Balanced,
+        Shape::CombRight(3),
+        Shape::CombLeft(3),
+        Shape::CombRight(r),
+        Shape::CombLeft(r),
+        Shape::PathThenBalanced(n / 2),
+        Shape::BalancedThenPaths(r),
+    ];
+    let mut seen: Vec<Vec<u32>> = vec![];
+    all.into_iter()
+        .filter(|s| {
+            let k = s.skeleton(n);
+            let new = !seen.contains(&k);
+            if new {
+                seen.push(k);
+            }
+            new
+        })
+        .collect()
+}
+
+/// Where lazy modifications are pending when the operation starts.
+#[derive(Clone, Copy, Debug, PartialEq)]
+enum Tags {
+    None,
+    /// add 1 at the root
+    Root,
+    /// at about three of four inner nodes, all six affine maps, all depths
+    Scattered,
+    /// the same, but only in the lower half of the levels: an operation meets them far from the root
+    Deep,
+}
+
+const TAGS: [Tags; 4] = [Tags::None, Tags::Root, Tags::Scattered, Tags::Deep];
+/// the affine maps over Z3 (compositions of add 1 and assign 0)
+const SCATTER: [(u8, u8); 8] = [IDT, (1, 1), (0, 0), (1, 2), (0, 1), (1, 1), IDT, (0, 2)];
+
+impl Tags {
+    fn at(self, pos: usize, depth: usize, height: usize) -> (u8, u8) {
+        let scattered = SCATTER[((pos * 5) ^ (pos >> 3) ^ (depth * 3)) % 8];
+        match self {
+            Tags::None => IDT,
+            Tags::Root if depth == 0 => MODS[0],
+            Tags::Root => IDT,
+            Tags::Scattered => scattered,
+            Tags::Deep if 2 * depth >= height => scattered,
+            Tags::Deep => IDT,
+        }
+    }
+
+    fn label(self) -> &'static str {
+        match self {
+            Tags::None => "none",
+            Tags::Root => "root",
+            Tags::Scattered => "scattered",
+            Tags::Deep => "deep",
+        }
+    }
+}
+
+/// Which priorities the levels of a literal tree get (the node at depth d of a tree with deepest level D).
+/// They matter where the crate draws a priority itself (insert_at): `Low` makes the new node a leaf at the
+/// end of a long merge seam, `High` makes it the root after a long split, `Spread` puts it somewhere in
+/// the middle; `Spread` and `High` use u32::MAX, `Low` and `Spread` use 0.
+#[derive(Clone, Copy, Debug, PartialEq)]
+enum Prio {
+    /// d
+    Low,
+    /// u32::MAX - (D - d)
+    High,
+    /// d * u32::MAX / D
+    Spread,
+}
+
+const PRIOS: [Prio; 3] = [Prio::Low, Prio::High, Prio::Spread];
+
+impl Prio {
+    fn of(self, d: u32, deepest: u32) -> u32 {
+        match self {
+            Prio::Low => d,
+            Prio::High => u32::MAX - (deepest - d),
+            Prio::Spread => (d as u64 * u32::MAX as u64 / deepest.max(1) as u64) as u32,
+        }
+    }
+
+    fn label(self) -> &'static str {
+        match self {
+            Prio::Low => "low",
+            Prio::High => "high",
+            Prio::Spread => "spread",
+        }
+    }
+}
+
+/// How the priorities of the two operands of a directed merge relate (d = depth of a node in its own tree).
+#[derive(Clone, Copy, Debug, PartialEq)]
+enum Rel {
+    /// every priority of the left operand is below every priority of the right one
+    LeftBelow,
+    RightBelow,
+    /// left 2d, right 2d+1: the seam alternates between the two spines
+    Interleaved,
+    /// left d, right d: a tie at every step of the seam
+    Tied,
+}
+
+const RELS: [Rel; 4] = [Rel::LeftBelow, Rel::RightBelow, Rel::Interleaved, Rel::Tied];
+
+impl Rel {
+    fn label(self) -> &'static str {
+        match self {
+            Rel::LeftBelow => "left_below",
+            Rel::RightBelow => "right_below",
+            Rel::Interleaved => "interleaved",
+            Rel::Tied => "tied",
+        }
+    }
+}
+
+/// size and aggregate a node must cache, given what its children cache: the values of its subtree with
+/// every modification pending INSIDE the subtree applied (those pending above it are not its business)
+fn due_cache(n: &BNode) -> (u32, Vec<u8>) {
+    let t = n.item.tag;
+    let mut agg: Vec<u8> = n.left.as_ref().map_or(vec![], |l| l.item.agg.iter().map(|&x| map_val(t, x)).collect());
+    agg.push(n.item.val);
+    if let Some(r) = &n.right {
+        agg.extend(r.item.agg.iter().map(|&x| map_val(t, x)));
+    }
+    agg.truncate(32);
+    (1 + n.left.as_ref().map_or(0, |l| l.item.size) + n.right.as_ref().map_or(0, |r| r.item.size), agg)
+}
+
+struct Built {
+    tree: Treap<Big>,
+    model: Seq,
+    height: usize,
+    /// depth of the deepest node that carries a pending modification
+    deepest_tag: Option<usize>,
+}
+
+/// The tree of `n` nodes of the given shape as a struct literal: element ids `id0`, `id0`+1, … in sequence
+/// order, stored values a fixed non-periodic pattern, modifications pending where `tags` says, priority of a
+/// node = its depth.  The model holds the values with every pending modification applied (a node's own first,
+/// then its parent's, … — the order in which they were attached in any history that leads to such a tree).
+fn build_shape(shape: Shape, n: usize, tags: Tags, id0: u32) -> Built {
+    struct Ctx {
+        tags: Tags,
+        height: usize,
+        id0: u32,
+        model: Seq,
+        deepest_tag: Option<usize>,
+    }
+    fn rec(c: &mut Ctx, s: Shape, lo: usize, hi: usize, depth: usize, above: (u8, u8)) -> Option<Box<BNode>> {
+        if lo == hi {
+            return None;
+        }
+        let (r, ls, rs) = s.root(lo, hi, depth);
+        let tag = if hi - lo >= 2 { c.tags.at(r, depth, c.height) } else { IDT };
+        if tag != IDT {
+            c.deepest_tag = c.deepest_tag.max(Some(depth));
+        }
+        let val = ((r * r + r / 3) % 3) as u8;
+        let left = rec(c, ls, lo, r, depth + 1, compose(above, tag));
+        c.model.push((c.id0 + r as u32, map_val(above, val)));
+        let right = rec(c, rs, r + 1, hi, depth + 1, compose(above, tag));
+        let mut node = Box::new(BNode { item: It { id: c.id0 + r as u32, val, size: 1, agg: vec![], tag }, priority: depth as u32, left, right });
+        (node.item.size, node.item.agg) = due_cache(&node);
+        Some(node)
+    }
+    let mut c = Ctx { tags, height: shape.height(n), id0, model: vec![], deepest_tag: None };
+    let root = rec(&mut c, shape, 0, n, 0, IDT);
+    Built { tree: Treap { root }, model: c.model, height: c.height, deepest_tag: c.deepest_tag }
+}
+
+/// priority = f(depth) for every node
+fn set_priorities(t: &mut Treap<Big>, f: &dyn Fn(u32) -> u32) {
+    fn rec(n: &mut Option<Box<BNode>>, d: u32, f: &dyn Fn(u32) -> u32) {
+        if let Some(b) = n {
+            b.priority = f(d);
+            rec(&mut b.left, d + 1, f);
+            rec(&mut b.right, d + 1, f);
+        }
+    }
+    rec(&mut t.root, 0, f)
+}
+
+/// first position where two sequences differ, for messages about long sequences
+fn first_diff(got: &[(u32, u8)], exp: &[(u32, u8)]) -> String {
+    let i = got.iter().zip(exp).position(|(a, b)| a != b).unwrap_or(got.len().min(exp.len()));
+    format!("{} elements against {} of the vector; first difference at position {i}: (id,value) {:?} against {:?}", got.len(), exp.len(), got.get(i), exp.get(i))
+}
+
+/// The invariants of the exploration, in linear time: collect() on a copy gives the model sequence (every
+/// pending modification applied exactly once, in attachment order), size() its length, the root aggregate
+/// its fold, and every node caches the size and the aggregate of its own subtree.
+fn check_big(t: &Treap<Big>, model: &[(u32, u8)]) -> Result<(), String> {
+    let mut c = copy_treap(t);
+    let got: Seq = c.collect().iter().map(|x| (x.id, x.val)).collect();
+    if got != model {
+        return Err(format!("collect() would return {}", first_diff(&got, model)));
+    }
+    if t.size() != model.len() || t.is_empty() != model.is_empty() {
+        return Err(format!("size() is {} and is_empty() {}, the vector has {} elements", t.size(), t.is_empty(), model.len()));
+    }
+    if let Some(r) = t.root() {
+        let fold: Vec<u8> = model.iter().take(32).map(|e| e.1).collect();
+        if r.agg != fold {
+            return Err(format!("root aggregate is {:?}, the fold of the sequence is {:?} (first 32 values)", r.agg, fold));
+        }
+    }
+    let mut err = None;
+    for_each_node(&t.root, &mut |n| {
+        if err.is_some() {
+            return;
+        }
+        let (size, agg) = due_cache(n);
+        if (n.item.size, &n.item.agg) != (size, &agg) {
+            err = Some(format!("node id {} caches size {} and aggregate {:?}, its subtree has size {size} and (pending modifications applied) values {agg:?}", n.item.id, n.item.size, n.item.agg));
+        }
+    });
+    err.map_or(Ok(()), Err)
+}
+
+/// One directed operation: a tree (shape, n, tags, prio) — for `merge` also a second one and the relation of
+/// their priorities — and an operation `fam` with parameters `a`, `b` (their meaning: see `run`).
+#[derive(Clone, Debug)]
+struct ShapeCase {
+    fam: &'static str,
+    shape: Shape,
+    n: usize,
+    tags: Tags,
+    prio: Prio,
+    a: usize,
+    b: usize,
+    other: Option<(Shape, usize, Tags, Rel)>,
+}
+
+const SHAPE_FAMILIES: [&str; 8] = ["observe", "split_at", "split_by", "insert_at", "remove_at", "apply", "range_apply", "merge"];
+
+/// what a sweep over shape cases saw, for the evidence
+#[derive(Default)]
+struct ShapeStats {
+    cases: u64,
+    judged_trees: u64,
+    max_height: usize,
+    deepest_tag: usize,
+    per_family: [u64; 8],
+}
+
+impl ShapeCase {
+    fn signature(&self) -> String {
+        let other = self.other.map_or(String::new(), |(s, n, t, r)| format!(":with={}/n={n}/tags={}/{}", s.label(), t.label(), r.label()));
+        format!("shapes:{}:{}/n={}/tags={}/prio={}:a={}:b={}{other}", self.fam, self.shape.label(), self.n, self.tags.label(), self.prio.label(), self.a, self.b)
+    }
+
+    fn describe(&self) -> String {
+        let tree = |s: Shape, n: usize, t: Tags| format!("{} of {n} nodes, pending modifications: {}", s.label(), t.label());
+        let (a, b) = (self.a, self.b);
+        let op = match (self.fam, self.other) {
+            ("merge", Some((s, n, t, r))) => format!("merged with ({}) on its right, priorities {}", tree(s, n, t), r.label()),
+            ("observe", _) => "first, last, collect".to_string(),
+            ("split_at" | "split_by", _) => format!("{}({a}), then the parts merged", self.fam),
+            ("insert_at", _) => format!("insert_at({a}), then remove_at({a})"),
+            ("apply", _) => format!("modification #{b} attached at the root, then split_at({a}) and merge"),
+            ("range_apply", _) => format!("positions {a}..{b} split out, modified at their root, merged back"),
+            (f, _) => format!("{f}({a})"),
+        };
+        format!("({}, priorities by depth: {}) {op}", tree(self.shape, self.n, self.tags), self.prio.label())
+    }
+
+    fn to_json(&self) -> Value {
+        let other = self.other.map(|(s, n, t, r)| json!({"shape": s.label(), "n": n, "tags": t.label(), "relation": r.label()}));
+        json!({"kind": "shape", "family": self.fam, "shape": self.shape.label(), "n": self.n, "tags": self.tags.label(), "priorities": self.prio.label(), "a": self.a, "b": self.b, "other": other})
+    }
+
+    fn from_json(v: &Value) -> Result<ShapeCase, String> {
+        let num = |x: &Value, k: &str| x[k].as_u64().map(|n| n as usize).ok_or_else(|| format!("{k} missing"));
+        let shape = |x: &Value, n: usize| shapes_for(n).into_iter().find(|s| Some(s.label().as_str()) == x["shape"].as_str()).ok_or_else(|| format!("unknown shape {} at n={n}", x["shape"]));
+        let tags = |x: &Value| TAGS.into_iter().find(|t| Some(t.label()) == x["tags"].as_str()).ok_or("unknown tags");
+        let fam = SHAPE_FAMILIES.into_iter().find(|f| Some(*f) == v["family"].as_str()).ok_or("unknown family")?;
+        let prio = PRIOS.into_iter().find(|p| Some(p.label()) == v["priorities"].as_str()).ok_or("unknown priorities")?;
+        let n = num(v, "n")?;
+        let other = match &v["other"] {
+            Value::Null => None,
+            o => {
+                let n2 = num(o, "n")?;
+                Some((shape(o, n2)?, n2, tags(o)?, RELS.into_iter().find(|r| Some(r.label()) == o["relation"].as_str()).ok_or("unknown relation")?))
+            }
+        };
+        Ok(ShapeCase { fam, shape: shape(v, n)?, n, tags: tags(v)?, prio, a: num(v, "a")?, b: num(v, "b")?, other })
+    }
+
+    /// Builds the tree(s), applies the operation to the real code and judges every treap it leaves.
+    /// Must run on a thread with a generous stack: the crate's operations recurse once per level.
+    fn run(&self, stats: &mut ShapeStats) -> Result<(), String> {
+        catch(|| self.run_inner(stats)).unwrap_or_else(|p| Err(format!("panicked: {p}")))
+    }
+
+    fn run_inner(&self, stats: &mut ShapeStats) -> Result<(), String> {
+        let ShapeCase { fam, shape, n, tags, prio, a, b, other } = self.clone();
+        let Built { tree: mut t, mut model, height, deepest_tag } = build_shape(shape, n, tags, 0);
+        let deepest = height.saturating_sub(1) as u32;
+        set_priorities(&mut t, &|d| prio.of(d, deepest));
+        stats.cases += 1;
+        stats.per_family[SHAPE_FAMILIES.iter().position(|f| *f == fam).unwrap()] += 1;
+        stats.max_height = stats.max_height.max(height);
+        stats.deepest_tag = stats.deepest_tag.max(deepest_tag.unwrap_or(0));
+        let mut judge = |what: &str, t: &Treap<Big>, model: &[(u32, u8)]| -> Result<(), String> {
+            stats.judged_trees += 1;
+            check_big(t, model).map_err(|m| format!("{what}: {m}"))
+        };
+        match fam {
+            // the literal itself, then the walks that read elements (they push on their way)
+            "observe" => {
+                judge("the tree as written down", &t, &model)?;
+                let got = t.first().map(|x| (x.id, x.val));
+                if got != model.first().copied() {
+                    return Err(format!("first() returned {:?}, the vector gives {:?}", got, model.first()));
+                }
+                judge("after first()", &t, &model)?;
+                let got = t.last().map(|x| (x.id, x.val));
+                if got != model.last().copied() {
+                    return Err(format!("last() returned {:?}, the vector gives {:?}", got, model.last()));
+                }
+                judge("after last()", &t, &model)?;
+                let got: Seq = t.collect().iter().map(|x| (x.id, x.val)).collect();
+                if got != model {
+                    return Err(format!("collect() returned {}", first_diff(&got, &model)));
+                }
+                judge("after collect()", &t, &model)?;
+            }
+            // a = position; the parts, then the parts merged again
+            "split_at" | "split_by" => {
+                let (l, r) = if fam == "split_at" { t.split_at(a) } else { t.split_by(|it| (it.id as usize) < a) };
+                if l.size() != a || r.size() != n - a {
+                    return Err(format!("parts have sizes {} and {}, expected {a} and {}", l.size(), r.size(), n - a));
+                }
+                judge("left part", &l, &model[..a])?;
+                judge("right part", &r, &model[a..])?;
+                judge("the parts merged again", &Treap::merge(l, r), &model)?;
+            }
+            // a = position; a new element (odd positions: one that carries a stale pending tag), then out again
+            "insert_at" => {
+                let new = (n as u32, if a % 2 == 1 { 4 } else { 2 });
+                t.insert_at(a, make_item(new.0, new.1));
+                model.insert(a, (new.0, new.1 % 4));
+                judge("after insert_at", &t, &model)?;
+                let it = t.remove_at(a);
+                if (it.id, it.val) != model.remove(a) {
+                    return Err(format!("remove_at({a}) after insert_at({a}) returned (id,value) ({},{})", it.id, it.val));
+                }
+                judge("after removing the inserted element", &t, &model)?;
+            }
+            // a = position
+            "remove_at" => {
+                let it = t.remove_at(a);
+                let e = model.remove(a);
+                if (it.id, it.val) != e || it.size != 1 || it.agg != vec![it.val] {
+                    return Err(format!("remove_at({a}) returned (id,value) ({},{}) with size {} and aggregate {:?}, the vector holds {:?}", it.id, it.val, it.size, it.agg, e));
+                }
+                judge("after remove_at", &t, &model)?;
+            }
+            // a = position, b = modification: attached at the root, then pushed through a split and a merge
+            "apply" => {
+                let md = MODS[b];
+                if let Some(r) = t.root_mut() {
+                    r.apply(md);
+                }
+                model.iter_mut().for_each(|e| e.1 = map_val(md, e.1));
+                judge("after a modification at the root", &t, &model)?;
+                let (l, r) = t.split_at(a);
+                judge("left part", &l, &model[..a])?;
+                judge("right part", &r, &model[a..])?;
+                judge("the parts merged again", &Treap::merge(l, r), &model)?;
+            }
+            // positions a..b split out, modified at their root, everything merged again
+            "range_apply" => {
+                let (l, rest) = t.split_at(a);
+                let (mut mid, r) = rest.split_at(b - a);
+                judge("the middle part", &mid, &model[a..b])?;
+                let md = MODS[(a + b) % 2];
+                if let Some(r) = mid.root_mut() {
+                    r.apply(md);
+                }
+                model[a..b].iter_mut().for_each(|e| e.1 = map_val(md, e.1));
+                judge("the modified middle part", &mid, &model[a..b])?;
+                judge("the three parts merged again", &Treap::merge(Treap::merge(l, mid), r), &model)?;
+            }
+            // merge(this tree, the other one)
+            "merge" => {
+                let (s2, n2, tags2, rel) = other.ok_or("merge without a second tree")?;
+                let Built { tree: mut u, model: m2, height: h2, deepest_tag: d2 } = build_shape(s2, n2, tags2, n as u32);
+                stats.max_height = stats.max_height.max(h2);
+                stats.deepest_tag = stats.deepest_tag.max(d2.unwrap_or(0));
+                let (hl, hr) = (height as u32, h2 as u32);
+                match rel {
+                    Rel::LeftBelow => set_priorities(&mut u, &|d| hl + d),
+                    Rel::RightBelow => set_priorities(&mut t, &|d| hr + d),
+                    Rel::Interleaved => {
+                        set_priorities(&mut t, &|d| 2 * d);
+                        set_priorities(&mut u, &|d| 2 * d + 1);
+                    }
+                    Rel::Tied => {}
+                }
+                model.extend(m2);
+                judge("the merged tree", &Treap::merge(t, u), &model)?;
+            }
+            _ => return Err(format!("unknown family {fam}")),
+        }
+        Ok(())
+    }
+}
+
+/// Positions of a sequence of n elements at which the positional operations are tried: all of them for
+/// n <= `all_up_to`, otherwise the two ends, the middle, and the neighbours of the powers of two from 32 on
+/// counted from either end (`thin`: of 64 only).
+fn shape_positions(n: usize, all_up_to: usize, thin: bool) -> Vec<usize> {
+    if n <= all_up_to {
+        return (0..=n).collect();
+    }
+    let mut v = vec![0, 1, 2, n / 2 - 1, n / 2, n / 2 + 1, n - 2, n - 1, n];
+    for p in [32usize, 64, 128, 256, 512, 1024, 2048] {
+        if p + 1 <= n && (!thin || p == 64) {
+            v.extend([p - 1, p, p + 1, n - p - 1, n - p, n - p + 1]);
+        }
+    }
+    v.sort();
+    v.dedup();
+    v
+}
+
+/// The sizes, the positions and the second operands of the directed shape sweep of a tier.
+struct ShapePlan {
+    sizes: Vec<usize>,
+    /// every position up to this size, a boundary set above it
+    all_positions_up_to: usize,
+    /// from this size on: the thin boundary set, and only `Tags::None` / `Tags::Scattered`
+    thin_from: usize,
+    merge_sizes: Vec<usize>,
+}
+
+impl ShapePlan {
+    fn of(quick: bool, dbg_child: bool) -> ShapePlan {
+        let near_powers = |top: u32| (5..=top).flat_map(|k| [(1usize << k) - 1, 1 << k, (1 << k) + 1]).collect::<Vec<_>>();
+        let mut plan = Self::unsorted(quick, dbg_child, &near_powers);
+        plan.sizes.sort();
+        plan.sizes.dedup();
+        plan
+    }
+
+    fn unsorted(quick: bool, dbg_child: bool, near_powers: &dyn Fn(u32) -> Vec<usize>) -> ShapePlan {
+        if dbg_child {
+            ShapePlan { sizes: (1..=8).chain([65, 129]).collect(), all_positions_up_to: 8, thin_from: 65, merge_sizes: vec![1, 3, 65] }
+        } else if quick {
+            ShapePlan { sizes: (1..=24).chain(near_powers(7)).chain([66, 257, 1025]).collect(), all_positions_up_to: 24, thin_from: 200, merge_sizes: vec![1, 2, 3, 8, 33, 65, 129] }
+        } else {
+            ShapePlan { sizes: (1..=64).chain(near_powers(11)).chain([66]).collect(), all_positions_up_to: 64, thin_from: usize::MAX, merge_sizes: vec![1, 2, 3, 8, 33, 65, 129, 257, 1025] }
+        }
+    }
+
+    /// The work of the sweep in enumeration order (sizes ascending, shapes in family order), cut into groups
+    /// that can run in parallel; inside a group: tags, priorities, operations, positions ascending.
+    fn groups(&self) -> Vec<Vec<ShapeCase>> {
+        let mut groups = vec![];
+        for &n in &self.sizes {
+            let thin = n >= self.thin_from;
+            let pos = shape_positions(n, self.all_positions_up_to, thin);
+            // ends of the split-out ranges: a coarse subset of the positions
+            let mut ends = vec![0, 1, n / 3, n / 2, n - 1, n];
+            ends.sort();
+            ends.dedup();
+            for shape in shapes_for(n) {
+                let mut g = vec![];
+                for tags in TAGS {
+                    if thin && !matches!(tags, Tags::None | Tags::Scattered) {
+                        continue;
+                    }
+                    let case = |fam, prio, a, b| ShapeCase { fam, shape, n, tags, prio, a, b, other: None };
+                    // only insert_at draws a priority: it runs under all three assignments, the others
+                    // under one each (all of them compare the same pairs of nodes under any of the three)
+                    g.push(case("observe", Prio::Spread, 0, 0));
+                    for &a in &pos {
+                        g.push(case("split_at", Prio::Low, a, 0));
+                        g.push(case("split_by", Prio::High, a, 0));
+                        for prio in PRIOS {
+                            g.push(case("insert_at", prio, a, 0));
+                        }
+                        if a < n {
+                            g.push(case("remove_at", Prio::Spread, a, 0));
+                        }
+                    }
+                    for &a in &ends {
+                        for m in 0..MODS.len() {
+                            g.push(case("apply", Prio::Low, a, m));
+                        }
+                        for &b in ends.iter().filter(|&&b| b > a) {
+                            g.push(case("range_apply", Prio::High, a, b));
+                        }
+                    }
+                }
+                groups.push(g);
+            }
+        }
+        // directed merges: every ordered pair of (size, shape), the tags equal on both sides or absent on one
+        let ms = &self.merge_sizes;
+        for &n in ms {
+            for shape in shapes_for(n) {
+                let mut g = vec![];
+                for &n2 in ms {
+                    for s2 in shapes_for(n2) {
+                        for (tags, tags2) in [(Tags::None, Tags::None), (Tags::Scattered, Tags::Scattered), (Tags::Root, Tags::None), (Tags::None, Tags::Deep)] {
+                            for rel in RELS {
+                                g.push(ShapeCase { fam: "merge", shape, n, tags, prio: Prio::Low, a: 0, b: 0, other: Some((s2, n2, tags2, rel)) });
+                            }
+                        }
+                    }
+                }
+                groups.push(g);
+            }
+        }
+        groups
+    }
+}
+
+/// Runs the groups on 16 threads with generous stacks; returns the statistics and, per family, the first
+/// failing case in enumeration order.
+fn shape_sweep(groups: &[Vec<ShapeCase>]) -> (ShapeStats, Vec<(ShapeCase, String)>) {
+    use std::sync::atomic::AtomicUsize;
+    use std::sync::Mutex;
+    // the most expensive groups first
+    let mut order: Vec<usize> = (0..groups.len()).collect();
+    order.sort_by_key(|&i| std::cmp::Reverse(groups[i].len() * groups[i].first().map_or(0, |c| c.n + c.other.map_or(0, |o| o.1))));
+    let next = AtomicUsize::new(0);
+    type Out = (ShapeStats, Vec<(ShapeCase, String)>);
+    let out: Mutex<Vec<Option<Out>>> = Mutex::new((0..groups.len()).map(|_| None).collect());
+    std::thread::scope(|sc| {
+        for _ in 0..16 {
+            std::thread::Builder::new()
+                .stack_size(SHAPE_STACK_MB << 20)
+                .spawn_scoped(sc, || loop {
+                    let j = next.fetch_add(1, Ordering::Relaxed);
+                    let Some(&i) = order.get(j) else { break };
+                    let mut stats = ShapeStats::default();
+                    let mut fails: Vec<(ShapeCase, String)> = vec![];
+                    for case in &groups[i] {
+                        if fails.iter().any(|f| f.0.fam == case.fam) {
+                            continue;
+                        }
+                        if let Err(m) = case.run(&mut stats) {
+                            fails.push((case.clone(), m));
+                        }
+                    }
+                    out.lock().unwrap()[i] = Some((stats, fails));
+                })
+                .expect("cannot start a thread");
+        }
+    });
+    let mut total = ShapeStats::default();
+    let mut first: Vec<(ShapeCase, String)> = vec![];
+    for (stats, fails) in out.into_inner().unwrap().into_iter().map(|o| o.unwrap()) {
+        total.cases += stats.cases;
+        total.judged_trees += stats.judged_trees;
+        total.max_height = total.max_height.max(stats.max_height);
+        total.deepest_tag = total.deepest_tag.max(stats.deepest_tag);
+        for (a, b) in total.per_family.iter_mut().zip(stats.per_family) {
+            *a += b;
+        }
+        for f in fails {
+            if !first.iter().any(|g| g.0.fam == f.0.fam) {
+                first.push(f);
+            }
+        }
+    }
+    (total, first)
+}
+
+/// stack of the threads that operate on the literal trees: the crate recurses once per level (about a
+/// thousand frames on the tallest trees here), the harness's own walks and the drop of a tree likewise
+const SHAPE_STACK_MB: usize = 256;
+
+// ---------------------------------------------------------------------------------------------
 // C16 (b): long adversarial histories through the REAL priority generator
 
 #[derive(Default)]
@@ -813,6 +1514,19 @@ enum Concat {
     Pairwise,
 }
 
+/// How long the threads of the chunks family live.
+#[derive(Clone, Copy, Debug, PartialEq)]
+enum Life {
+    /// every worker is started only after the previous one has exited and been joined: no two lifetimes overlap
+    Joined,
+    /// every worker stays alive (parked) after handing over its chunk until the history ends: all lifetimes
+    /// overlap; the workers are still started one after another
+    Parked,
+    /// as `Joined`, but this many long-lived threads have each created one node before the first worker
+    /// starts and stay alive until the history ends
+    Residents(usize),
+}
+
 /// One directed history.  Every family is parametrised by a size `n` whose meaning is given per variant.
 #[derive(Clone, Copy, Debug, PartialEq)]
 enum Hist {
@@ -843,8 +1557,9 @@ enum Hist {
     Ordinals { front: bool },
     /// chunks built on different threads: `threads` workers, one after another, each build a chunk of `c`
     /// elements on a thread that has never created a node and hand it over; the collecting thread
-    /// concatenates the chunks with Treap::merge; every chunk and every intermediate result is probed
-    Chunks { threads: usize, c: usize, fill: Fill, order: Concat },
+    /// concatenates the chunks with Treap::merge; every chunk is probed, and so is every intermediate result
+    /// (from the 33rd merge on: those that have doubled in size, and the last one)
+    Chunks { threads: usize, c: usize, fill: Fill, order: Concat, life: Life },
     /// nodes created round-robin by `threads` live workers (worker w creates the single-node treaps
     /// w, w+threads, … of the sequence, one per request) and put into one treap by the collecting thread
     /// with merge at the back / at the front / in the middle (split_at + two merges); n = nodes per worker
@@ -861,15 +1576,30 @@ const QUIET_OPS: &[&str] = &["new_empty", "merge_empty", "other_rotate", "other_
 const REGROW_BASE: usize = 1000;
 /// elements per thread of the thread-ordinal sweep: a path of 256 is far over the bound (60.0)
 const ORDINAL_ELEMS: usize = 256;
-const CHUNK_THREADS: &[usize] = &[2, 4, 8, 16, 32];
+/// Worker counts of the chunks family: a few threads, and many short-lived ones (a program that starts a
+/// worker per batch).  Whatever the code derives a thread's generator from — how many threads came before,
+/// how many are alive, a number handed back at exit — must keep hundreds of such workers apart: if their
+/// streams repeat each other, the i-th nodes of all chunks tie and the concatenation is a chain of T nodes.
+const CHUNK_THREADS: &[usize] = &[2, 4, 8, 16, 32, 64, 128, 256, 512, 1024];
 const CHUNK_SIZES: &[usize] = &[1, 8, 100, 1000, 10000];
+const CHUNK_LIVES: &[Life] = &[Life::Joined, Life::Parked, Life::Residents(3)];
+/// (largest worker count, most elements of one history, largest count of workers that all stay alive) of the
+/// chunks family
+fn chunk_limits(quick: bool) -> (usize, usize, usize) {
+    if quick {
+        (512, 1 << 19, 128)
+    } else {
+        (1024, 1 << 22, 1024)
+    }
+}
 /// Worker counts of the round-robin family.  If the threads' generators repeat each other, T workers
 /// produce runs of T equal priorities; merge lets the right root win a tie, so the height becomes about
 /// T times the number of running minima of the stream (over the bound from T = 8 on).
 const RR_THREADS: &[usize] = &[2, 4, 8, 16, 32];
 const RR_MODES: &[&str] = &["back", "front", "middle"];
 
-/// The whole menu, simplest first inside every family.
+/// The whole menu (of the thorough tier; the quick tier leaves out the largest chunk histories, see
+/// `in_tier`), simplest first inside every family.
 fn menu() -> Vec<Hist> {
     let mut v: Vec<Hist> = BASIC.iter().map(|m| Hist::Basic(m)).collect();
     for &b in BLOCK_SIZES {
@@ -905,7 +1635,9 @@ fn menu() -> Vec<Hist> {
         for &c in CHUNK_SIZES {
             for fill in [Fill::NewAppend, Fill::NewFront, Fill::FromItemMerge] {
                 for order in [Concat::Forward, Concat::Mirrored, Concat::Pairwise] {
-                    v.push(Hist::Chunks { threads, c, fill, order });
+                    for &life in CHUNK_LIVES {
+                        v.push(Hist::Chunks { threads, c, fill, order, life });
+                    }
                 }
             }
         }
@@ -940,13 +1672,18 @@ impl Hist {
             Hist::Interleaved { op, front } => format!("interleaved/{op}/{}", end(front)),
             Hist::Regrow { at, removed, front } => format!("regrow/remove_{removed}_at_{at}/{}", end(front)),
             Hist::Ordinals { front } => format!("thread_ordinals/{}", end(front)),
-            Hist::Chunks { threads, c, fill, order } => {
+            Hist::Chunks { threads, c, fill, order, life } => {
                 let o = match order {
                     Concat::Forward => "merge(acc,chunk)",
                     Concat::Mirrored => "merge(chunk,acc)",
                     Concat::Pairwise => "pairwise",
                 };
-                format!("chunks/T={threads}/c={c}/{}/{o}", fill_name(fill))
+                let l = match life {
+                    Life::Joined => String::new(),
+                    Life::Parked => "/workers_stay_alive".to_string(),
+                    Life::Residents(k) => format!("/{k}_resident_threads"),
+                };
+                format!("chunks/T={threads}/c={c}/{}/{o}{l}", fill_name(fill))
             }
             Hist::RoundRobin { threads, mode } => format!("roundrobin/T={threads}/{mode}"),
         }
@@ -965,6 +1702,17 @@ impl Hist {
             Hist::Ordinals { .. } => "thread_ordinals",
             Hist::Chunks { .. } => "chunks",
             Hist::RoundRobin { .. } => "roundrobin",
+        }
+    }
+
+    /// whether the tier runs this history at all
+    fn in_tier(&self, quick: bool) -> bool {
+        match *self {
+            Hist::Chunks { threads, c, life, .. } => {
+                let (max_threads, max_elements, max_parked) = chunk_limits(quick);
+                threads <= max_threads && threads * c <= max_elements && (life != Life::Parked || threads <= max_parked)
+            }
+            _ => true,
         }
     }
 
@@ -1112,6 +1860,51 @@ fn on_new_thread<R: Send + 'static>(what: &str, stack_mb: usize, f: impl FnOnce(
         .map_err(|e| format!("cannot start a thread: {e}"))?
         .join()
         .map_err(|_| format!("{what} panicked"))
+}
+
+/// A thread that has computed something and stays alive (blocked) until it is released.
+struct Staying {
+    quit: std::sync::Arc<(std::sync::Mutex<bool>, std::sync::Condvar)>,
+    handle: std::thread::JoinHandle<()>,
+}
+
+impl Staying {
+    /// Starts a thread with a stack of `stack_mb` MiB, waits until it has computed `f()` (None: it panicked)
+    /// and leaves it alive.
+    fn spawn<R: Send + 'static>(stack_mb: usize, f: impl FnOnce() -> R + Send + 'static) -> Result<(Option<R>, Staying), MenuFail> {
+        use std::sync::{Arc, Condvar, Mutex};
+        let quit = Arc::new((Mutex::new(false), Condvar::new()));
+        let done: Arc<(Mutex<Option<Option<R>>>, Condvar)> = Arc::new((Mutex::new(None), Condvar::new()));
+        let (quit2, done2) = (quit.clone(), done.clone());
+        let handle = std::thread::Builder::new()
+            .stack_size(stack_mb << 20)
+            .spawn(move || {
+                let r = catch(f).ok();
+                *done2.0.lock().unwrap() = Some(r);
+                done2.1.notify_one();
+                let mut q = quit2.0.lock().unwrap();
+                while !*q {
+                    q = quit2.1.wait(q).unwrap();
+                }
+            })
+            .map_err(|e| MenuFail { msg: format!("cannot start a thread: {e}"), n: None, machinery: true })?;
+        let mut d = done.0.lock().unwrap();
+        while d.is_none() {
+            d = done.1.wait(d).unwrap();
+        }
+        Ok((d.take().unwrap(), Staying { quit, handle }))
+    }
+
+    /// lets all of them exit, then waits for all of them
+    fn release(threads: Vec<Staying>) {
+        for t in &threads {
+            *t.quit.0.lock().unwrap() = true;
+            t.quit.1.notify_all();
+        }
+        for t in threads {
+            let _ = t.handle.join();
+        }
+    }
 }
 
 /// One chunk of `c` elements, after `offset` node creations of the calling thread.
@@ -1399,22 +2192,53 @@ fn menu_history(hist: Hist, n: usize, offset: usize) -> Result<MenuOk, MenuFail>
             }
             expect_size = 0;
         }
-        Hist::Chunks { threads, c, fill, order } => {
+        Hist::Chunks { threads, c, fill, order, life } => {
+            let fail = |what: &str| MenuFail::from(format!("history {} (offset {offset}): {what}", hist.label()));
+            // the threads that stay alive until the history ends
+            let mut alive: Vec<Staying> = vec![];
+            if let Life::Residents(k) = life {
+                for _ in 0..k {
+                    let (r, th) = Staying::spawn(1, || drop(TreapNode::new(item())))?;
+                    alive.push(th);
+                    r.ok_or_else(|| fail("a long-lived thread panicked while creating one node"))?;
+                }
+            }
+            // a worker's stack: 1 KiB for every level of the deepest recursion a chunk can cause (a chain of c
+            // nodes), at least 1 MiB; small stacks are recycled by the thread library, which keeps histories
+            // with hundreds of workers cheap
+            let stack_mb = 1 + c / 1000;
             let mut parts: Vec<Treap<Sz>> = vec![];
             for i in 0..threads {
-                let chunk = on_new_thread("the thread building a chunk", 64, move || build_chunk(fill, c, offset)).map_err(|m| format!("history {} (offset {offset}): {m}", p.label))?;
+                let chunk = if life == Life::Parked {
+                    let (r, th) = Staying::spawn(stack_mb, move || build_chunk(fill, c, offset))?;
+                    alive.push(th);
+                    r.ok_or_else(|| fail("the thread building a chunk panicked"))?
+                } else {
+                    on_new_thread("the thread building a chunk", stack_mb, move || build_chunk(fill, c, offset)).map_err(|m| fail(&m))?
+                };
                 steps += c;
                 p.ctx = format!("chunk built by thread #{i}: ");
                 p.now(&chunk, steps, None)?;
                 parts.push(chunk);
             }
             p.ctx.clear();
+            // probing is linear in the size: every one of the first 32 results, later ones when the size has
+            // doubled; the final result (which holds every chain an earlier one held) is probed below
+            let mut merges = 0;
+            let mut probe = |p: &mut Prober, t: &Treap<Sz>, steps: usize| -> Result<(), String> {
+                merges += 1;
+                if p.due(t.size()) || merges <= 32 {
+                    p.now(t, steps, None)
+                } else {
+                    Ok(())
+                }
+            };
             match order {
                 Concat::Forward | Concat::Mirrored => {
                     for x in parts {
                         t = if order == Concat::Forward { Treap::merge(t, x) } else { Treap::merge(x, t) };
                         steps += 1;
-                        p.now(&t, steps, None)?;
+                        probe(&mut p, &t, steps)?;
                     }
                 }
                 Concat::Pairwise => {
@@ -1426,7 +2250,7 @@ fn menu_history(hist: Hist, n: usize, offset: usize) -> Result<MenuOk, MenuFail>
                                 Some(b) => {
                                     let m = Treap::merge(a, b);
                                     steps += 1;
-                                    p.now(&m, steps, None)?;
+                                    probe(&mut p, &m, steps)?;
                                     next.push(m);
                                 }
                                 None => next.push(a),
@@ -1437,6 +2261,7 @@ fn menu_history(hist: Hist, n: usize, offset: usize) -> Result<MenuOk, MenuFail>
                     t = parts.pop().unwrap_or_default();
                 }
             }
+            Staying::release(alive);
             expect_size = threads * c;
         }
         Hist::RoundRobin { threads, mode } => {
@@ -1733,6 +2558,10 @@ fn main() {
                 r.map(|_| ()).map_err(|f| f.msg)
             }
             "constructors" => check_constructors(),
+            "shape" => {
+                let case = ShapeCase::from_json(v).map_err(|e| format!("replay file: {e}"))?;
+                on_new_thread("the thread of a directed shape case", SHAPE_STACK_MB, move || case.run(&mut ShapeStats::default())).and_then(|r| r)
+            }
             _ => {
                 let case = HistCase::from_json(v, mode).map_err(|e| format!("replay file: {e}"))?;
                 if fresh_process {
@@ -1818,6 +2647,39 @@ fn main() {
         if let Err(m) = check_constructors() {
             run.violation(Violation::new("constructors", m, json!({"kind": "constructors"})));
         }
+        // directed: tall and large shapes
+        let plan = ShapePlan::of(quick, child);
+        let groups = plan.groups();
+        let t0 = std::time::Instant::now();
+        let (stats, fails) = shape_sweep(&groups);
+        for (case, m) in fails {
+            run.violation(Violation::new(case.signature(), format!("[directed shapes] {}: {m}", case.describe()), case.to_json()));
+        }
+        let tallest = plan.sizes.iter().copied().max().unwrap_or(0);
+        if !run.has_violations() && (stats.max_height < tallest || stats.deepest_tag * 2 < tallest || stats.per_family.iter().any(|&c| c == 0)) {
+            run.machinery_failure(&format!("directed shape sweep implausible: tallest tree {} levels, deepest pending modification at depth {}, cases per family {:?}", stats.max_height, stats.deepest_tag, stats.per_family));
+        }
+        run.cov("directed_shape_cases", stats.cases);
+        run.cov("directed_shape_trees_judged", stats.judged_trees);
+        run.cov("directed_shape_cases_per_operation", Value::Object(SHAPE_FAMILIES.iter().zip(stats.per_family).map(|(f, c)| (f.to_string(), json!(c))).collect()));
+        run.cov("directed_shape_tallest_tree_levels", stats.max_height as u64);
+        run.cov("directed_shape_deepest_pending_modification", stats.deepest_tag as u64);
+        run.cov("directed_shape_wall_s", (t0.elapsed().as_secs_f64() * 100.0).round() / 100.0);
+        run.cov(
+            "directed_shapes_note",
+            format!(
+                "DIRECTED, NOT exhaustive (the `exhaustive` flag speaks about the exploration only): trees written down as struct literals (no priority drawn) of n in {:?} nodes in the shape families {:?} (parameters of the largest size; the same tree is taken once), element ids = positions, values a fixed pattern over Z3, lazy modifications pending nowhere / at the root / scattered over about 3 of 4 inner nodes (all six affine maps) / scattered over the lower half of the levels only, the model holding every pending modification applied (a node's own first, then its ancestors' from the parent up). \
+                 Operations, each applied once to a fresh copy of the literal and every treap it leaves judged by the invariants of the exploration in linear time (collect() on a copy = the vector, size, root aggregate, every node's cached size and aggregate against its children's): first/last/collect; split_at and split_by at position a, both parts, then the parts merged again; insert_at a (a plain element, at odd a one that carries a stale tag) and remove_at a of it again; remove_at a; a modification (add 1 / assign 0) attached at the root, then split_at a and merge; positions a..b split out, the middle part's aggregate judged, modified at its root, the three parts merged. Positions: every a in 0..=n for n <= {}, above that the ends, the middle and the neighbours of 32, 64, …, 2048 counted from either end{}; range ends in {{0, 1, n/3, n/2, n-1, n}}. \
+                 Priorities of the literal: by depth d, as d (`low`), as u32::MAX - (deepest - d) (`high`) or as d * u32::MAX / deepest (`spread`); insert_at — the only operation that draws a priority — runs under all three (the new node becomes a leaf at the end of a long merge seam / the root after a long split / lands in the middle), every other operation under one. \
+                 merge: every ordered pair of (n, shape) with n in {:?}, tags (none, none), (scattered, scattered), (root, none), (none, deep), priorities of the two operands related as left entirely below right, right entirely below left, interleaved (2d against 2d+1: the seam alternates) and tied level by level. \
+                 All of it on threads with {SHAPE_STACK_MB} MiB of stack: the crate's operations recurse once per level.",
+                plan.sizes,
+                shapes_for(tallest).iter().map(|s| s.label()).collect::<Vec<_>>(),
+                plan.all_positions_up_to,
+                if plan.thin_from == usize::MAX { String::new() } else { format!(" (from n = {} on: of 64 only, and tags nowhere / scattered only)", plan.thin_from) },
+                plan.merge_sizes
+            ),
+        );
     }
     run.cov("states", states);
     run.cov("transitions", transitions);
@@ -1847,6 +2709,7 @@ fn main() {
         // menu order (simplest parameters first); per history the stream offsets, then the later threads
         let cases: Vec<Case> = hists
             .iter()
+            .filter(|h| h.in_tier(quick))
             .flat_map(|h| {
                 let first = h.offsets().iter().map(|&o| Case { hist: *h, n: size_of(h, o), offset: o, thread: 0 });
                 let later = h.later_threads().iter().map(|&k| Case { hist: *h, n: h.size(quick), offset: 0, thread: k });
@@ -1927,9 +2790,9 @@ fn main() {
                  (f) interleaved: appends / front insertions with operations that create no node between any two of them ({:?}: Treap::new(), merge with an empty treap, split_at+merge on a second treap, first/last/root/size on it, split_at+merge of the treap itself); \
                  (g) regrow: {REGROW_BASE} elements, then one / half / all of them removed by remove_at at the front / in the middle / at the back, then {n} appends or front insertions with no removal in between; \
                  (h) thread_ordinals: threads #0 … #{} of a process, one after another, each the next thread of the process to create a node, each builds a treap of {ORDINAL_ELEMS} elements by appends (front insertions), probed at every doubling; \
-                 (i) chunks built on different threads: T in {:?} threads, one after another, each build a chunk of c in {:?} elements (Treap::new()+appends, Treap::new()+front insertions, or merge(t, from_item(x)) per element) as their first node creations and hand it to the collecting thread, which concatenates them with acc = merge(acc, chunk), with acc = merge(chunk, acc), or pairwise in a balanced tree of merges; every chunk and every intermediate result is probed; \
+                 (i) chunks built on different threads, from a few workers to many short-lived ones: T in {:?} threads (T*c <= {}), one after another, each build a chunk of c in {:?} elements (Treap::new()+appends, Treap::new()+front insertions, or merge(t, from_item(x)) per element) as their first node creations and hand it to the collecting thread, which concatenates them with acc = merge(acc, chunk), with acc = merge(chunk, acc), or pairwise in a balanced tree of merges; three thread lifetimes: every worker started only after the previous one has exited and been joined (no two lifetimes overlap), every worker kept alive after handing over its chunk until the history ends (all lifetimes overlap; T <= {}), and the first again with 3 long-lived threads that each create one node before the first worker starts and stay alive throughout — so the shape must not depend on whether the code tells threads apart by how many came before, by how many are alive, or by a number handed back at exit; every chunk is probed, every one of the first 32 intermediate results, later ones whenever the size has doubled, and the final one; \
                  (j) roundrobin: T in {:?} live worker threads answer one request at a time with a freshly created single-node treap (worker w creates nodes w, w+T, … of the sequence), the collecting thread puts them into one treap by merge at the back, merge at the front, or split_at in the middle + two merges, {}/T nodes per worker",
-                hists.len(),
+                hists.iter().filter(|h| h.in_tier(quick)).count(),
                 Hist::Basic("append").offsets(),
                 Hist::Strided { k: 2, front: false }.offsets(),
                 Hist::Basic("append").later_threads(),
@@ -1939,8 +2802,10 @@ fn main() {
                 QUEUE_LENS,
                 QUIET_OPS,
                 Hist::Ordinals { front: false }.size(quick) - 1,
-                CHUNK_THREADS,
+                CHUNK_THREADS.iter().filter(|&&t| t <= chunk_limits(quick).0).collect::<Vec<_>>(),
+                chunk_limits(quick).1,
                 CHUNK_SIZES,
+                chunk_limits(quick).2,
                 RR_THREADS,
                 total / 8
             ),
